@@ -20,7 +20,9 @@ RULE = ('seeded structured NoteSequence generator (vt.nsio.gen_desc: every event
         'times a few ticks around other times) combined per op with dyadic shifts, dyadic stretch factors fn/2^k, '
         '0..5 pieces with optional explicit durations, target durations on/around multiples of the piece duration, '
         'piecewise-linear integer time maps given as breakpoint tables (monotone, plus reversing/negative ones for '
-        'the rejection clause) and beat annotations inside/on/after total_time; non-trivial = the implementation '
+        'the rejection clause) and beat annotations inside/on/after total_time; stretch in_place absent/False/True; '
+        'chains of 2-3 operations where each input is the real output of the step before; every call is observed twice '
+        '(argument snapshot, second call on the same objects, mutation of the second result); non-trivial = the implementation '
         'returned a sequence with at least one note and one non-note event, or took a rejection branch; '
         'distinct by canonical input')
 ASSUMPTIONS = [
@@ -48,7 +50,14 @@ I_TOTAL, I_QSTEPS, I_SPQ, I_SPS, I_SUB, I_TPQ, I_REST = 8, 9, 10, 11, 12, 13, 14
 
 # ---------------------------------------------------------------- helpers
 def _wire(desc):
+    if '_wire' in desc:                     # pseudo-description of an intermediate result (chains)
+        return desc['_wire']
     return nsio.to_wire(nsio.to_proto(desc))
+
+
+def _pseudo(ns):
+    w = nsio.to_wire(ns)
+    return {'_wire': w, 'total': w[I_TOTAL], 'spq': w[I_SPQ], 'sps': w[I_SPS]}
 
 
 def _canon(w, drop_rest=False, drop_ccs=False, keep_order=False):
@@ -227,7 +236,13 @@ def _gen_stretch(rng):
     for t in s['tempos']:
         t[1] = fn * rng.randint((20 << nsio.QPM_BITS) // fn, (300 << nsio.QPM_BITS) // fn)
     _maybe_quantized(rng, s)
-    return {'op': 'stretch', 'input': {'fn': fn, 'fd': fd, 'seq': s}}
+    a = {'fn': fn, 'fd': fd, 'seq': s}
+    r = rng.random()
+    if r < 0.3:                                   # in_place drawn independently of factor and sequence
+        a['in_place'] = True
+    elif r < 0.4:
+        a['in_place'] = False
+    return {'op': 'stretch', 'input': a}
 
 
 def _gen_concat(rng):
@@ -353,7 +368,72 @@ def _gen_rectify(rng):
     return {'op': 'rectify', 'input': {'bpm': bpm, 'seq': s}}
 
 
-GENS = [('shift', _gen_shift), ('stretch', _gen_stretch), ('concat', _gen_concat), ('repeat', _gen_repeat),
+def _chain_step(rng, final=False):
+    """One operation on "the sequence produced so far".  All values keep times on multiples of 2^12 ticks
+    (power-of-two stretch factors, integer-slope maps), so every later step stays exact."""
+    k = rng.choice(['shift', 'stretch', 'concat', 'repeat', 'adjust'] + (['rectify', 'rectify'] if final else []))
+    if k == 'shift':
+        return {'op': 'shift', 'seq': 'CUR', 'd': rng.choice([Q, 3 * Q, 10 * Q, 0] if rng.random() < 0.1 else [Q, 2 * Q, 7 * Q])}
+    if k == 'stretch':
+        fn, fd = rng.choice([(1, 2), (2, 1), (4, 1), (1, 4), (1, 1), (3, 1)])
+        st = {'op': 'stretch', 'seq': 'CUR', 'fn': fn, 'fd': fd}
+        if rng.random() < 0.4:
+            st['in_place'] = rng.random() < 0.75
+        return st
+    if k == 'concat':
+        n = rng.randint(1, 3)
+        seqs = ['CUR'] * n
+        if rng.random() < 0.5:
+            o = _snap(_seq(rng, max_notes=3, hi_quarters=8, max_events=2, meta=False), 1 << 12)
+            for t in o['tempos']:
+                t[1] = (27 * rng.choice([2, 3, 4, 5])) << nsio.QPM_BITS
+            seqs.insert(rng.randint(0, n), o)
+        r = rng.random()
+        durs = None if r < 0.6 else ([] if r < 0.7 else [rng.choice([40, 80]) * Q for _ in seqs])
+        return {'op': 'concat', 'seqs': seqs, 'durs': durs}
+    if k == 'repeat':
+        sd = rng.choice([None, None, 60 * Q, 200 * Q])
+        d = rng.randint(1, 4) * (sd or 20 * Q) + rng.choice([0, Q, -Q])
+        if sd is None:
+            d = rng.randint(1, 30) * Q
+        return {'op': 'repeat', 'seq': 'CUR', 'd': d, 'sd': sd}
+    if k == 'adjust':
+        n = rng.randint(1, 3)
+        xs = [0] + [x * Q for x in sorted(rng.sample(range(1, 40), n - 1))]
+        y = rng.choice([0, 0, Q, -2 * Q] if rng.random() < 0.2 else [0, Q])
+        tbl = []
+        for i, x in enumerate(xs):
+            p_ = rng.choice([0, 1, 1, 2])
+            tbl.append([x, y, p_, 1])
+            if i + 1 < n:
+                y = y + (xs[i + 1] - x) * p_ + rng.choice([0, Q])
+        return {'op': 'adjust', 'seq': 'CUR', 'table': tbl, 'md': rng.choice([None, None, None, Q, 0])}
+    return {'op': 'rectify', 'seq': 'CUR', 'bpm': rng.choice([30, 60, 120, 97]) << nsio.QPM_BITS}
+
+
+def _gen_chain(rng):
+    """Two- and three-step use: the input of every operation but the first is the real output of the one before."""
+    s = _snap(_seq(rng, max_notes=5, hi_quarters=12, max_events=3, meta=False), 1 << 12)
+    for t in s['tempos']:
+        t[1] = (27 * rng.choice([2, 3, 4, 5])) << nsio.QPM_BITS       # qpm / 3 (up to three times), / 4 stay on the 2^-20 grid
+    if rng.random() < 0.5:
+        s['texts'] += [[rng.randint(0, 12) * Q, 0, 'beat', 2] for _ in range(rng.randint(1, 3))]
+    _maybe_quantized(rng, s, 0.03)
+    steps = [_chain_step(rng) for _ in range(rng.randint(1, 2))]
+    # a repeat / concat of an already repeated sequence can get long: at most one of them per chain
+    seen = False
+    for st in steps:
+        if st['op'] in ('repeat', 'concat'):
+            if seen:
+                st.clear(); st.update({'op': 'shift', 'seq': 'CUR', 'd': Q})
+            seen = True
+    final = _chain_step(rng, final=True)
+    if seen and final['op'] in ('repeat', 'concat'):
+        final = {'op': 'rectify', 'seq': 'CUR', 'bpm': 60 << nsio.QPM_BITS}
+    return {'op': 'chain', 'input': {'seq': s, 'steps': steps, 'final': final}}
+
+
+GENS = [('chain', _gen_chain), ('shift', _gen_shift), ('stretch', _gen_stretch), ('concat', _gen_concat), ('repeat', _gen_repeat),
         ('adjust', _gen_adjust), ('rectify', _gen_rectify)]
 PER_OP = {'quick': 260, 'thorough': 6000}
 
@@ -420,6 +500,29 @@ def corpus():
         {'op': 'repeat', 'input': {'seq': full, 'd': 5 * Q, 'sd': None}},
         {'op': 'repeat', 'input': {'seq': _mini(), 'd': 5 * Q, 'sd': None}},
         {'op': 'repeat', 'input': {'seq': full, 'd': 0, 'sd': None}},
+        # audit: in_place both ways, also on the rejection path (nothing may be touched before raising)
+        {'op': 'stretch', 'input': {'fn': 3, 'fd': 2, 'seq': full, 'in_place': True}},
+        {'op': 'stretch', 'input': {'fn': 3, 'fd': 2, 'seq': full, 'in_place': False}},
+        {'op': 'stretch', 'input': {'fn': 2, 'fd': 1, 'seq': _mini([n1], 8 * Q, spq=4), 'in_place': True}},
+        # audit: leading zero-length pieces with explicit positive durations (the offset is what has accumulated,
+        # not cat_seq.total_time)
+        {'op': 'concat', 'input': {'seqs': [_mini(), _mini(tempos=[[0, 90 << 20]]), _mini([n1], 8 * Q)],
+                                   'durs': [4 * Q, 2 * Q, 8 * Q]}},
+        {'op': 'concat', 'input': {'seqs': [_mini(), _mini([n1], 8 * Q)], 'durs': [4 * Q, 9 * Q]}},
+        # audit: the map pushes only the SECOND stored event of a kind below zero / reverses only the second note
+        {'op': 'adjust', 'input': {'table': [[0, -3 * Q, 1, 1]], 'md': None, 'seq': _mini(
+            [n1], 8 * Q, ccs=[[6 * Q, 0, 64, 127, 0, 0, 0], [Q, 0, 64, 0, 0, 0, 0]])}},
+        {'op': 'adjust', 'input': {'table': [[0, -3 * Q, 1, 1]], 'md': None, 'seq': _mini(
+            [n1], 8 * Q, sects=[[6 * Q, 1], [Q, 2]], texts=[[5 * Q, 0, 'C', 1], [2 * Q, 0, 'b', 2]])}},
+        {'op': 'adjust', 'input': {'table': [[0, 0, 1, 1], [5 * Q, 0, 1, 1]], 'md': None, 'seq': _mini(
+            [[60, 80, Q, 2 * Q, 0, 0, 0, 0, 0, 0], [62, 80, 4 * Q, 6 * Q, 0, 0, 0, 0, 0, 0]], 8 * Q)}},
+        {'op': 'adjust', 'input': {'table': [[0, 0, 0, 1]], 'md': Q, 'seq': _mini([n1, n1], 8 * Q)}},
+        # audit: two-step use
+        {'op': 'chain', 'input': {'seq': full, 'steps': [{'op': 'shift', 'seq': 'CUR', 'd': 2 * Q},
+                                                          {'op': 'stretch', 'seq': 'CUR', 'fn': 1, 'fd': 2, 'in_place': True}],
+                                  'final': {'op': 'repeat', 'seq': 'CUR', 'd': 12 * Q, 'sd': None}}},
+        {'op': 'chain', 'input': {'seq': full, 'steps': [{'op': 'concat', 'seqs': ['CUR', 'CUR'], 'durs': None}],
+                                  'final': {'op': 'rectify', 'seq': 'CUR', 'bpm': 60 << 20}}},
         {'op': 'shift', 'input': {'d': 0, 'seq': full}},
         {'op': 'shift', 'input': {'d': Q, 'seq': _mini([n1], 8 * Q, sps=100)}},
     ]
@@ -431,74 +534,156 @@ def _rect_wire(ns):
     return nsio.to_wire(ns, tfun=float)
 
 
-def impl(case):
+HOLE = -(2 ** 70)          # Run/C13.v:HOLE, "the sequence produced so far" in a chain
+
+
+def _prepare(op, a, cur=None):
+    """Build the arguments of one call of the real code.  Returns (protos, other_args, call)."""
     from note_seq import sequences_lib as sl
-    op, a = case['op'], case['input']
-    try:
-        if op == 'shift':
-            r = sl.shift_sequence_times(nsio.to_proto(a['seq']), nsio.t2f(a['d']))
-            return ['OK', _canon(nsio.to_wire(r))]
-        if op == 'stretch':
-            r = sl.stretch_note_sequence(nsio.to_proto(a['seq']), a['fn'] / a['fd'])
-            return ['OK', _canon(nsio.to_wire(r))]
-        if op == 'concat':
-            durs = None if a['durs'] is None else [nsio.t2f(d) for d in a['durs']]
-            r = sl.concatenate_sequences([_proto(s) for s in a['seqs']], durs)
-            return ['OK', _canon(nsio.to_wire(r), drop_rest=True), _meta_of(r)]
-        if op == 'repeat':
-            sd = None if a['sd'] is None else nsio.t2f(a['sd'])
-            r = sl.repeat_sequence_to_duration(nsio.to_proto(a['seq']), nsio.t2f(a['d']), sd)
-            return ['OK', _canon(nsio.to_wire(r), drop_rest=True)]
-        if op == 'adjust':
-            md = None if a['md'] is None else nsio.t2f(a['md'])
-            r, skipped = sl.adjust_notesequence_times(nsio.to_proto(a['seq']), _time_func(a['table']), md)
-            return ['OK', _canon(nsio.to_wire(r)), int(skipped)]
-        if op == 'rectify':
-            r, al = sl.rectify_beats(nsio.to_proto(a['seq']), nsio.q2f(a['bpm']))
-            return ['OK', _canon(_rect_wire(r), keep_order=True), [nsio.f2t(float(x)) for x in al[:, 0]],
-                    [float(x) for x in al[:, 1]]]
-    except nsio.OffGrid:
-        raise
-    except Exception as e:  # noqa
-        return _exc(e)
+
+    def seq():
+        return cur if a.get('seq') == 'CUR' else _proto(a['seq'])
+    if op == 'shift':
+        x = seq()
+        return [x], [], lambda: (sl.shift_sequence_times(x, nsio.t2f(a['d'])),)
+    if op == 'stretch':
+        x = seq()
+        if 'in_place' in a:
+            return [x], [], lambda: (sl.stretch_note_sequence(x, a['fn'] / a['fd'], in_place=bool(a['in_place'])),)
+        return [x], [], lambda: (sl.stretch_note_sequence(x, a['fn'] / a['fd']),)
+    if op == 'concat':
+        xs = [cur if q == 'CUR' else _proto(q) for q in a['seqs']]
+        durs = None if a['durs'] is None else [nsio.t2f(d) for d in a['durs']]
+        return xs, [xs, durs], lambda: (sl.concatenate_sequences(xs, durs),)
+    if op == 'repeat':
+        x = seq()
+        sd = None if a['sd'] is None else nsio.t2f(a['sd'])
+        return [x], [], lambda: (sl.repeat_sequence_to_duration(x, nsio.t2f(a['d']), sd),)
+    if op == 'adjust':
+        x = seq()
+        md = None if a['md'] is None else nsio.t2f(a['md'])
+        f = _time_func(a['table'])
+        return [x], [], lambda: sl.adjust_notesequence_times(x, f, md)
+    if op == 'rectify':
+        x = seq()
+        return [x], [], lambda: sl.rectify_beats(x, nsio.q2f(a['bpm']))
     raise ValueError(op)
 
 
+def _canon_out(op, raw, drop_rest=False):
+    r = raw[0]
+    if op in ('shift', 'stretch'):
+        return ['OK', _canon(nsio.to_wire(r), drop_rest=drop_rest)]
+    if op == 'concat':
+        return ['OK', _canon(nsio.to_wire(r), drop_rest=True), _meta_of(r)]
+    if op == 'repeat':
+        return ['OK', _canon(nsio.to_wire(r), drop_rest=True)]
+    if op == 'adjust':
+        return ['OK', _canon(nsio.to_wire(r), drop_rest=drop_rest), int(raw[1])]
+    if op == 'rectify':
+        al = raw[1]
+        return ['OK', _canon(_rect_wire(r), keep_order=True, drop_rest=drop_rest),
+                [nsio.f2t(float(x)) for x in al[:, 0]], [float(x) for x in al[:, 1]]]
+
+
+def _snapshot(protos, other):
+    return [q.SerializeToString(deterministic=True) for q in protos], repr([len(o) if o is not None else None
+                                                                            for o in other]), \
+        repr(other[1]) if len(other) > 1 else ''
+
+
+def _observe(op, a, cur=None, drop_rest=False):
+    """One operation on the real code, observed the way section (B) of the audit asks:
+    aux = [arguments untouched (in_place: result IS the argument), a second call on the same argument objects
+    gives the same answer, mutating that second result changes neither the arguments nor the first result and
+    the result is a new object]."""
+    protos, other, call = _prepare(op, a, cur)
+    snap = _snapshot(protos, other)
+    inplace = op == 'stretch' and a.get('in_place')
+
+    def once():
+        try:
+            raw = call()
+            return raw, _canon_out(op, raw, drop_rest)
+        except nsio.OffGrid:
+            raise
+        except Exception as e:  # noqa
+            return None, _exc(e)
+    raw, out = once()
+    aux = [1, 1, 1]
+    if inplace and raw is not None:
+        aux[0] = int(raw[0] is protos[0])
+        return out, aux, raw
+    aux[0] = int(_snapshot(protos, other) == snap)
+    raw2, out2 = once()
+    aux[1] = int(out2 == out)
+    if raw2 is not None and raw is not None:
+        r2 = raw2[0]
+        r2.total_time += 1.0
+        del r2.notes[:]
+        r2.tempos.add().qpm = 1.0
+        r2.section_annotations.add().time = 1.0
+        r2.id = 'mutated'
+        aux[2] = int(_snapshot(protos, other) == snap and _canon_out(op, raw, drop_rest) == out and
+                     raw[0] is not r2 and all(raw[0] is not q for q in protos))
+    return out, aux, raw
+
+
+def impl(case):
+    op, a = case['op'], case['input']
+    if op != 'chain':
+        out, aux, _ = _observe(op, a)
+        return out + [aux]
+    cur = _proto(a['seq'])
+    auxs = []
+    for st in a['steps'] + [a['final']]:
+        out, aux, raw = _observe(st['op'], st, cur, drop_rest=True)
+        auxs.append(aux)
+        if out[0] != 'OK':
+            break
+        cur = raw[0]
+    return out + [[min(x[i] for x in auxs) for i in range(3)]]
+
+
 # ---------------------------------------------------------------- model
+def _minput(op, a):
+    def sw(x):
+        return HOLE if x == 'CUR' else _wire(x)
+    if op == 'shift':
+        return [1, a['d'], sw(a['seq'])]
+    if op == 'stretch':
+        return [2, a['fn'], a['fd'], sw(a['seq'])]
+    if op == 'concat':
+        return [3, [sw(q) for q in a['seqs']], a['durs'] or [],
+                [_wire_meta({} if q == 'CUR' else q) for q in a['seqs']]]
+    if op == 'repeat':
+        return [4, sw(a['seq']), a['d'], [] if a['sd'] is None else [a['sd']]]
+    if op == 'adjust':
+        return [5, a['table'], [] if a['md'] is None else [a['md']], sw(a['seq'])]
+    if op == 'rectify':
+        return [6, a['bpm'], sw(a['seq'])]
+
+
 def model_input(case):
     op, a = case['op'], case['input']
-    if op == 'shift':
-        return [1, a['d'], _wire(a['seq'])]
-    if op == 'stretch':
-        return [2, a['fn'], a['fd'], _wire(a['seq'])]
-    if op == 'concat':
-        return [3, [_wire(s) for s in a['seqs']], a['durs'] or [], [_wire_meta(s) for s in a['seqs']]]
-    if op == 'repeat':
-        return [4, _wire(a['seq']), a['d'], [] if a['sd'] is None else [a['sd']]]
-    if op == 'adjust':
-        return [5, a['table'], [] if a['md'] is None else [a['md']], _wire(a['seq'])]
-    if op == 'rectify':
-        return [6, a['bpm'], _wire(a['seq'])]
+    if op == 'chain':
+        return [7, _wire(a['seq']), [_minput(st['op'], st) for st in a['steps']], _minput(a['final']['op'], a['final'])]
+    return _minput(op, a)
 
 
-def _fix_sub(w):
-    return w
-
-
-def model_output(case, m):
-    op, a = case['op'], case['input']
+def _moutput(op, a, m, drop_rest=False):
     if m[0] == -1000:
         return ['EXC', ERR.get(m[1], 'model-error-%d' % m[1])]
     p = m[1]
     if op in ('shift', 'stretch'):
-        return ['OK', _canon(p)]
+        return ['OK', _canon(p, drop_rest=drop_rest)]
     if op == 'concat':
         sc = p[1][0] + [0] * (9 - len(p[1][0]))
         return ['OK', _canon(p[0], drop_rest=True), [sc] + p[1][1:] + [0]]
     if op == 'repeat':
         return ['OK', _canon(p, drop_rest=True)]
     if op == 'adjust':
-        return ['OK', _canon(p[0]), p[1]]
+        return ['OK', _canon(p[0], drop_rest=drop_rest), p[1]]
     if op == 'rectify':
         w, beats, S = p
         unit = Fraction(60 << nsio.QPM_BITS, a['bpm']) / S          # seconds per model unit
@@ -511,7 +696,15 @@ def model_output(case, m):
             w[i] = [[sec(r[0])] + r[1:] for r in w[i]]
         w[I_TOTAL] = sec(w[I_TOTAL])
         w[I_SUB] = [float(nsio.t2f(x)) for x in w[I_SUB]]
-        return ['OK', _canon(w, keep_order=True), beats, [sec(i * S) for i in range(len(beats))]]
+        return ['OK', _canon(w, keep_order=True, drop_rest=drop_rest), beats, [sec(i * S) for i in range(len(beats))]]
+
+
+def model_output(case, m):
+    op, a = case['op'], case['input']
+    if op == 'chain':
+        # an error of an earlier step ends the chain with that error; otherwise the final op's result
+        return _moutput(a['final']['op'], a['final'], m, drop_rest=True) + [[1, 1, 1]]
+    return _moutput(op, a, m) + [[1, 1, 1]]
 
 
 def _close(x, y):
@@ -525,7 +718,8 @@ def _close(x, y):
 
 
 def equal(case, a, b):
-    if case['op'] == 'rectify':
+    op = case['op']
+    if op == 'rectify' or (op == 'chain' and case['input']['final']['op'] == 'rectify'):
         return _close(a, b)
     return a == b
 
@@ -583,10 +777,11 @@ def _expect_exc(io, cls, op, why):
     return {'kind': '%s-%s-not-rejected' % (op, why), 'expected': cls, 'got': io[:2] if io[0] == 'EXC' else 'OK'}
 
 
-def oracle(case, io):
-    op, a = case['op'], case['input']
-    if io[0] == 'HARNESS-EXC':
-        return {'kind': '%s-output-not-representable' % op, 'detail': io[1:]}
+AUX_KINDS = ['argument-modified-by-the-call', 'second-call-on-same-arguments-differs',
+             'result-shares-state-with-argument-or-later-result']
+
+
+def _oracle_op(op, a, io):
     if op == 'shift':
         return _oracle_shift(a, io)
     if op == 'stretch':
@@ -599,6 +794,42 @@ def oracle(case, io):
         return _oracle_adjust(a, io)
     if op == 'rectify':
         return _oracle_rectify(a, io)
+
+
+def _aux_verdict(op, a, aux, ok=True):
+    for i, k in enumerate(AUX_KINDS):
+        if not aux[i]:
+            if i == 0 and op == 'stretch' and a.get('in_place') and ok:
+                return {'kind': 'stretch-in-place-does-not-return-its-argument'}
+            return {'kind': '%s-%s' % (op, k)}
+    return None
+
+
+def oracle(case, io):
+    op, a = case['op'], case['input']
+    if io[0] == 'HARNESS-EXC':
+        return {'kind': '%s-output-not-representable' % op, 'detail': io[1:]}
+    if op != 'chain':
+        return _aux_verdict(op, a, io[-1], io[0] == 'OK') or _oracle_op(op, a, io[:-1])
+    # two-step use: every step is judged on the sequence the implementation really produced before it
+    cur = _proto(a['seq'])
+    for k, st in enumerate(a['steps'] + [a['final']]):
+        b = dict(st)
+        if b.get('seq') == 'CUR':
+            b['seq'] = _pseudo(cur)
+        if 'seqs' in b:
+            ps = _pseudo(cur)
+            b['seqs'] = [ps if q == 'CUR' else q for q in b['seqs']]
+        out, aux, raw = _observe(st['op'], st, cur, drop_rest=True)
+        v = _aux_verdict(st['op'], st, aux, out[0] == 'OK') or _oracle_op(st['op'], b, out)
+        if v:
+            v['step'] = k
+            v['kind'] = 'chain-' + v['kind']
+            return v
+        if out[0] != 'OK':
+            return None
+        cur = raw[0]
+    return None
 
 
 def _oracle_shift(a, io):
@@ -890,6 +1121,17 @@ def nontrivial(case, io):
 
 def shrink(case):
     op, a = case['op'], case['input']
+    if op == 'chain':
+        for i in range(len(a['steps'])):
+            b = dict(a); b['steps'] = a['steps'][:i] + a['steps'][i + 1:]
+            yield {'op': op, 'input': b}
+        if a['steps']:
+            b = dict(a); b['final'] = a['steps'][-1]; b['steps'] = a['steps'][:-1]
+            yield {'op': op, 'input': b}
+        for q in nsio.shrink_desc(a['seq']):
+            b = dict(a); b['seq'] = q
+            yield {'op': op, 'input': b}
+        return
     if 'seq' in a:
         for s in nsio.shrink_desc(a['seq']):
             b = dict(a); b['seq'] = s
